@@ -340,6 +340,46 @@ pub fn search_c11(seed: u64, ctx: &mut Ctx) -> Option<J> {
             }
         }
     }
+    // union of operands of DIFFERENT order (equal and different numbers of
+    // 64-bit blocks in the bit matrix: 3/5 and 9/11 share the block count)
+    for (a, b) in [(3usize, 5usize), (5, 3), (9, 11), (11, 9), (7, 8), (8, 7), (8, 9), (9, 8), (2, 8), (63, 65), (65, 64)] {
+        for repr in UNWEIGHTED {
+            let reps = if heavy(repr, "union") { 2 } else { 24 };
+            for r in 0..reps {
+                let (g, h) = if r == 0 {
+                    (make_model("complete", a), structured("circuit", b, &[]))
+                } else {
+                    (random_g(&mut rng, a, &[]), random_g(&mut rng, b, &[]))
+                };
+                let mut c = unary(repr, "union", g);
+                c.h = Some(h);
+                if r % 4 == 1 {
+                    let o = 1 + rng.below(12);
+                    c.k = Some(random_g(&mut rng, o, &[]));
+                }
+                if let Some(f) = ctx.eval(&c) {
+                    return Some(f);
+                }
+            }
+        }
+        if ctx.expired() {
+            return None;
+        }
+    }
+    // filter_vertices keeping a vertex that loses all its neighbours
+    for (g, keeps) in [
+        (structured("star", 6, &[]), vec![vec![0], vec![1, 2, 3, 4, 5], vec![0, 3], vec![3]]),
+        (structured("path", 7, &[]), vec![vec![0, 2, 4, 6], vec![1, 3, 5], vec![0, 1, 3, 4, 6], vec![6]]),
+        (structured("cycle", 65, &[]), vec![vec![0, 64], vec![63, 64], vec![0, 32, 33], (0..65).step_by(2).collect()]),
+    ] {
+        for keep in keeps {
+            let mut c = unary("AdjacencyMap", "filter_vertices", g.clone());
+            c.keep = keep;
+            if let Some(f) = ctx.eval(&c) {
+                return Some(f);
+            }
+        }
+    }
     // seeded random up to order 6; AdjacencyMap also with non-contiguous ids
     // for union and filter_vertices (and for complement / converse only when
     // the known defect F6 is not skipped)
